@@ -8,7 +8,7 @@ L(form, key, indent, trail, sfx) == [form |-> form, key |-> key, indent |-> inde
 
 \* "tag" lines are the tag lines of a nested block: they count like any other line
 MCLines == { L("k", <<97>>, 0, 0, 0), L("k", <<98>>, 2, 0, 0), L("tag", <<>>, 0, 0, 0),
-             L("blank", <<>>, 0, 0, 0), L("ws", <<>>, 3, 0, 0) }
+             L("blank", <<>>, 0, 0, 0), L("ws", <<>>, 3, 0, 0), L("uws", <<>>, 2, 0, 0) }
 
 \* sp = spelling variant of the expression: 0 "OPN", 1 "OP N", 2 " OP  N "
 MCConfigs == { [kind |-> "count", dir |-> "asc", sp |-> s, pat |-> "none", fmt |-> "lex",
